@@ -13,7 +13,7 @@ import (
 )
 
 func init() {
-	register("C20", "Error well-formedness: (R1) every call of a rule's addError passes, on every path, a Message option whose text is provably non-empty and an At option whose argument is a parser-assigned position (must-set analysis of the variadic option slice through appends and phis); (R2) every error constructor call (Errorf/ErrorPathf/ErrorPosf/ErrorLocf, fmt.Errorf, errors.New) has a provably non-empty message, every gqlerror.Error literal outside the constructors sets Message or is completed by options, and ErrorPosf reaches ErrorLocf on every path; (R3) the struct tags of gqlerror.Error and Location give the response shape and no custom marshaller overrides it; (R4) ast.Path elements have string/int underlying types, any custom marshaller does not quote names with Go syntax, UnmarshalJSON maps string->PathName and float64->PathIndex, String handles every implementer; (R5) the file, line and column of every ErrorLocf call come from one position (or the lexer's own state), and every AST node the loader synthesises carries a Position. (R6) every location is positive: at every lexer call that builds an error line >= 1 and endRunes - lineStartRunes >= 0, and at every return of a finished token Pos.Line >= 1 and Pos.Column >= 1 (abstract interpretation of the lexer; tokens are where every other location is copied from).", runC20)
+	register("C20", "Error well-formedness: (R1) every call of a rule's addError passes, on every path, a Message option whose text is provably non-empty and an At option whose argument is a parser-assigned position (must-set analysis of the variadic option slice through appends and phis); (R2) every error constructor call (Errorf/ErrorPathf/ErrorPosf/ErrorLocf, fmt.Errorf, errors.New) has a provably non-empty message, every gqlerror.Error literal outside the constructors sets Message or is completed by options, and ErrorPosf reaches ErrorLocf on every path; (R3) the struct tags of gqlerror.Error and Location give the response shape and no custom marshaller overrides it; (R4) ast.Path elements have string/int underlying types, any custom marshaller does not quote names with Go syntax, UnmarshalJSON maps string->PathName and float64->PathIndex, String handles every implementer; (R5) the file, line and column of every ErrorLocf call come from one position (or the lexer's own state), and every AST node the loader synthesises carries a Position. (R6) every location is positive: at every lexer call that builds an error line >= 1 and endRunes - lineStartRunes >= 0, and at every return of a finished token Pos.Line >= 1 and Pos.Column >= 1 (abstract interpretation of the lexer; tokens are where every other location is copied from). (R7) gqlerror.Wrap / WrapPath are applied to plain errors only.", runC20)
 }
 
 // mustElems returns the values that are certainly elements of slice v at this point
@@ -882,92 +882,8 @@ func runC20(c *Ctx) {
 
 	// ---- R5 provenance of file/line/column; synthesised nodes carry positions
 	r5 := c.Rule("R5", "file, line and column of every located error come from one position; synthesised nodes carry a Position", 4)
-	if el := p.Func("gqlerror.ErrorLocf"); el != nil {
-		for _, ci := range callsTo(p.Funcs(), el) {
-			fn := ci.Parent()
-			site := p.FuncName(fn)
-			args := ci.Common().Args
-			b0, f0 := posFieldBase(args[0])
-			b1, f1 := posFieldBase(args[1])
-			b2, f2 := posFieldBase(args[2])
-			switch {
-			case b0 != nil && b1 != nil && b2 != nil && baseKey(b0) == baseKey(b1) && baseKey(b1) == baseKey(b2) && f0 == "Src.Name" && f1 == "Line" && f2 == "Column":
-				r5.OK("ErrorLocf in "+site, "file, line, column are Src.Name, Line, Column of one position")
-			case strings.HasPrefix(site, "lexer."):
-				// the lexer's own cursor: file from its Source, line from its line counter
-				okFile := false
-				if u, ok := args[0].(*ssa.UnOp); ok {
-					if fa, ok := u.X.(*ssa.FieldAddr); ok {
-						_, fname, _, _ := fieldOf(fa)
-						okFile = fname == "Name"
-					}
-				}
-				if okFile {
-					r5.OK("ErrorLocf in "+site, "lexer cursor state (file from the lexer's Source); coordinates are C04's obligation")
-				} else {
-					r5.Fail(ci.Pos(), site, "ErrorLocf file argument", "the file of a lexer error does not come from the lexer's source")
-				}
-			default:
-				r5.Fail(ci.Pos(), site, "ErrorLocf arguments from different positions", fmt.Sprintf("file/line/column of this error come from %s/%s/%s of different values: the location may name the wrong file or mix coordinates", f0, f1, f2))
-			}
-		}
-	}
-	// synthesised AST nodes outside the parser: every literal of an ast node type with a Position field sets it
-	for _, rel := range []string{"validator", "", "validator/rules"} {
-		for _, fn := range p.FuncsIn(rel) {
-			allInstrs(fn, func(in ssa.Instruction) {
-				a, ok := in.(*ssa.Alloc)
-				if !ok {
-					return
-				}
-				n := namedOf(a.Type())
-				if n == nil || n.Obj().Pkg() == nil || !strings.HasSuffix(n.Obj().Pkg().Path(), "/ast") {
-					return
-				}
-				st, ok := n.Underlying().(*types.Struct)
-				if !ok {
-					return
-				}
-				hasPos := false
-				for i := 0; i < st.NumFields(); i++ {
-					if st.Field(i).Name() == "Position" && isPositionPtr(st.Field(i).Type()) {
-						hasPos = true
-					}
-				}
-				if !hasPos {
-					return
-				}
-				// only node kinds that the loader reports errors on or publishes in the schema
-				switch n.Obj().Name() {
-				case "Definition", "FieldDefinition", "ArgumentDefinition", "DirectiveDefinition", "EnumValueDefinition":
-				default:
-					return
-				}
-				// a plain copy (`tmp := *x`) is a store of the whole struct
-				whole := false
-				for _, ref := range *a.Referrers() {
-					if s, ok := ref.(*ssa.Store); ok && s.Addr == ssa.Value(a) {
-						whole = true
-					}
-				}
-				site := p.FuncName(fn)
-				if whole || len(fieldStores(a, "Position")) > 0 {
-					r5.OK("ast."+n.Obj().Name()+" built in "+site, "Position set")
-					return
-				}
-				// introspection fields appended to Query have no source position by design: accepted when Name is a "__" constant
-				for _, owner := range append([]*ssa.Alloc{a}, ownerAllocs(a)...) {
-					for _, nm := range fieldStores(owner, "Name") {
-						if s, ok := constString(nm); ok && strings.HasPrefix(s, "__") {
-							r5.OK("ast."+n.Obj().Name()+" (part of "+s+") built in "+site, "introspection member: never the subject of a loader error")
-							return
-						}
-					}
-				}
-				r5.Fail(a.Pos(), site, "ast."+n.Obj().Name()+" literal without Position", "the loader synthesises a schema node without a Position; errors about it (ErrorPosf(node.Position, ...)) have no location and no file, or crash")
-			})
-		}
-	}
+	c20LocatedFromOnePosition(c, r5)
+	c20SynthesisedNodesHavePositions(c, r5)
 	var ws []string
 	for f, i := range wrappers {
 		ws = append(ws, fmt.Sprintf("%s#%d", p.FuncName(f), i))
@@ -978,6 +894,10 @@ func runC20(c *Ctx) {
 	// ---- R6 the coordinates every location is copied from are positive
 	r6 := c.Rule("R6", "line >= 1 and column >= 1 wherever the lexer builds an error or a token", 10)
 	c20PositiveCoordinates(c, r6)
+
+	// ---- R7 wrapping does not throw a location away
+	r7 := c.Rule("R7", "gqlerror.Wrap / WrapPath are applied to plain errors only", 2)
+	c20WrapLosesLocation(c, r7)
 }
 
 // c20PositiveCoordinates: every Location of a parse, load or validation error is copied from the lexer's cursor (its own
@@ -1250,4 +1170,263 @@ func ownerAllocs(a *ssa.Alloc) []*ssa.Alloc {
 	}
 	follow(a, 0)
 	return out
+}
+
+// c20LocatedFromOnePosition (C20.R5, C04.R5, C01.R10): file, line and column of every ErrorLocf call come from one
+// position value.
+func c20LocatedFromOnePosition(c *Ctx, r5 *RuleResult) {
+	p := c.P
+	if el := p.Func("gqlerror.ErrorLocf"); el != nil {
+		for _, ci := range callsTo(p.Funcs(), el) {
+			fn := ci.Parent()
+			site := p.FuncName(fn)
+			args := ci.Common().Args
+			b0, f0 := posFieldBase(args[0])
+			b1, f1 := posFieldBase(args[1])
+			b2, f2 := posFieldBase(args[2])
+			switch {
+			case b0 != nil && b1 != nil && b2 != nil && baseKey(b0) == baseKey(b1) && baseKey(b1) == baseKey(b2) && f0 == "Src.Name" && f1 == "Line" && f2 == "Column":
+				r5.OK("ErrorLocf in "+site, "file, line, column are Src.Name, Line, Column of one position")
+			case strings.HasPrefix(site, "lexer."):
+				// the lexer's own cursor: file from its Source, line from its line counter
+				okFile := false
+				if u, ok := args[0].(*ssa.UnOp); ok {
+					if fa, ok := u.X.(*ssa.FieldAddr); ok {
+						_, fname, _, _ := fieldOf(fa)
+						okFile = fname == "Name"
+					}
+				}
+				if okFile {
+					r5.OK("ErrorLocf in "+site, "lexer cursor state (file from the lexer's Source); coordinates are C04's obligation")
+				} else {
+					r5.Fail(ci.Pos(), site, "ErrorLocf file argument", "the file of a lexer error does not come from the lexer's source")
+				}
+			default:
+				r5.Fail(ci.Pos(), site, "ErrorLocf arguments from different positions", fmt.Sprintf("file/line/column of this error come from %s/%s/%s of different values: the location may name the wrong file or mix coordinates", f0, f1, f2))
+			}
+		}
+	}
+}
+
+// c20SynthesisedNodesHavePositions (C20.R5, C02.R7): every schema node the loader synthesises carries a Position —
+// ErrorPosf dereferences it.
+func c20SynthesisedNodesHavePositions(c *Ctx, r5 *RuleResult) {
+	p := c.P
+	// synthesised AST nodes outside the parser: every literal of an ast node type with a Position field sets it
+	for _, rel := range []string{"validator", "", "validator/rules"} {
+		for _, fn := range p.FuncsIn(rel) {
+			allInstrs(fn, func(in ssa.Instruction) {
+				a, ok := in.(*ssa.Alloc)
+				if !ok {
+					return
+				}
+				n := namedOf(a.Type())
+				if n == nil || n.Obj().Pkg() == nil || !strings.HasSuffix(n.Obj().Pkg().Path(), "/ast") {
+					return
+				}
+				st, ok := n.Underlying().(*types.Struct)
+				if !ok {
+					return
+				}
+				hasPos := false
+				for i := 0; i < st.NumFields(); i++ {
+					if st.Field(i).Name() == "Position" && isPositionPtr(st.Field(i).Type()) {
+						hasPos = true
+					}
+				}
+				if !hasPos {
+					return
+				}
+				// only node kinds that the loader reports errors on or publishes in the schema
+				switch n.Obj().Name() {
+				case "Definition", "FieldDefinition", "ArgumentDefinition", "DirectiveDefinition", "EnumValueDefinition":
+				default:
+					return
+				}
+				// a plain copy (`tmp := *x`) is a store of the whole struct
+				whole := false
+				for _, ref := range *a.Referrers() {
+					if s, ok := ref.(*ssa.Store); ok && s.Addr == ssa.Value(a) {
+						whole = true
+					}
+				}
+				site := p.FuncName(fn)
+				if whole || len(fieldStores(a, "Position")) > 0 {
+					r5.OK("ast."+n.Obj().Name()+" built in "+site, "Position set")
+					return
+				}
+				// introspection fields appended to Query have no source position by design: accepted when Name is a "__" constant
+				for _, owner := range append([]*ssa.Alloc{a}, ownerAllocs(a)...) {
+					for _, nm := range fieldStores(owner, "Name") {
+						if s, ok := constString(nm); ok && strings.HasPrefix(s, "__") {
+							r5.OK("ast."+n.Obj().Name()+" (part of "+s+") built in "+site, "introspection member: never the subject of a loader error")
+							return
+						}
+					}
+				}
+				r5.Fail(a.Pos(), site, "ast."+n.Obj().Name()+" literal without Position", "the loader synthesises a schema node without a Position; errors about it (ErrorPosf(node.Position, ...)) have no location and no file, or crash")
+			})
+		}
+	}
+}
+
+// c20WrapLosesLocation (C20.R7): gqlerror.Wrap and WrapPath build a new Error around err with no Locations and no file.
+// Applied to an error that already is a located *gqlerror.Error (the lexer's, the parser's, the loader's) they throw its
+// place away. Every call must therefore sit where the argument is known not to be one: on the failed side of a type
+// assertion to *gqlerror.Error of the same value, or with an argument that can only come from code that returns plain
+// errors (strconv, fmt.Errorf).
+func c20WrapLosesLocation(c *Ctx, r *RuleResult) {
+	p := c.P
+	errT := p.LookupType("gqlerror", "Error")
+	if errT == nil {
+		r.AnchorLost("gqlerror.Error")
+		return
+	}
+	isGqlPtr := func(t types.Type) bool {
+		pt, ok := t.Underlying().(*types.Pointer)
+		return ok && sameNamed(namedOf(pt.Elem()), errT)
+	}
+	memo := map[ssa.Value]int{}
+	var may func(v ssa.Value, d int) bool
+	may = func(v ssa.Value, d int) bool {
+		if d > 6 {
+			return true
+		}
+		if st, ok := memo[v]; ok {
+			return st == 2
+		}
+		memo[v] = 1
+		res := func() bool {
+			v := unspill(v)
+			if isNilConst(v) {
+				return false
+			}
+			if isGqlPtr(v.Type()) {
+				return true
+			}
+			switch x := v.(type) {
+			case *ssa.MakeInterface:
+				return isGqlPtr(x.X.Type())
+			case *ssa.ChangeInterface:
+				return may(x.X, d+1)
+			case *ssa.ChangeType:
+				return may(x.X, d+1)
+			case *ssa.Phi:
+				for _, e := range x.Edges {
+					if may(e, d+1) {
+						return true
+					}
+				}
+				return false
+			case *ssa.Extract:
+				call, ok := x.Tuple.(*ssa.Call)
+				if !ok {
+					return true
+				}
+				g := call.Call.StaticCallee()
+				if g == nil {
+					return true
+				}
+				if !p.inModule(g) || len(g.Blocks) == 0 {
+					return false // the standard library returns plain errors
+				}
+				for _, ret := range returnsOf(g) {
+					vals := returnValues(ret)
+					if x.Index < len(vals) && may(vals[x.Index], d+1) {
+						return true
+					}
+				}
+				return false
+			case *ssa.Call:
+				g := x.Call.StaticCallee()
+				if g == nil {
+					return true
+				}
+				if !p.inModule(g) || len(g.Blocks) == 0 {
+					return false
+				}
+				for _, ret := range returnsOf(g) {
+					if len(ret.Results) == 1 && may(ret.Results[0], d+1) {
+						return true
+					}
+				}
+				return false
+			case *ssa.UnOp:
+				// a field that holds an error: whatever is stored into it anywhere
+				if fa, ok := x.X.(*ssa.FieldAddr); ok && x.Op == token.MUL {
+					if n, f, _, _ := fieldOf(fa); n != nil {
+						for _, s := range storesToField(p.Funcs(), n, f) {
+							if may(s.store.Val, d+1) {
+								return true
+							}
+						}
+						return false
+					}
+				}
+				return true
+			case *ssa.Parameter:
+				fn := x.Parent()
+				idx := paramIndex(fn, x)
+				calls := callSitesOf(p, fn)
+				if idx < 0 || len(calls) == 0 {
+					return true
+				}
+				for _, ci := range calls {
+					if idx < len(ci.Common().Args) && may(ci.Common().Args[idx], d+1) {
+						return true
+					}
+				}
+				return false
+			}
+			return true
+		}()
+		if res {
+			memo[v] = 2
+		} else {
+			memo[v] = 3
+		}
+		return res
+	}
+	n := 0
+	for _, name := range []string{"gqlerror.Wrap", "gqlerror.WrapPath"} {
+		w := p.Func(name)
+		if w == nil {
+			continue
+		}
+		for _, ci := range callsTo(p.Funcs(), w) {
+			fn := ci.Parent()
+			if !p.inModule(fn) {
+				continue
+			}
+			n++
+			arg := ci.Common().Args[len(ci.Common().Args)-1]
+			site := fmt.Sprintf("%s in %s at %s", name, p.FuncName(fn), p.Pos(ci.Pos()))
+			// under the failed side of a type assertion of the same value
+			asserted := false
+			for _, cd := range condsAt(ci.Block()) {
+				ex, ok := cd.V.(*ssa.Extract)
+				if !ok || ex.Index != 1 || cd.True {
+					continue
+				}
+				ta, ok := ex.Tuple.(*ssa.TypeAssert)
+				if !ok || !isGqlPtr(ta.AssertedType) {
+					continue
+				}
+				if unspill(stripChange(ta.X)) == unspill(stripChange(arg)) {
+					asserted = true
+				}
+			}
+			switch {
+			case asserted:
+				r.OK(site, "the argument failed the assertion to *gqlerror.Error")
+			case !may(arg, 0):
+				r.OK(site, "the argument can only be a plain error")
+			default:
+				r.Fail(ci.Pos(), p.FuncName(fn), name+" applied to an error that may already be located", "the wrapped error may be a *gqlerror.Error that carries a location and a file; the new error has neither (the place survives only as text in the message), so the caller gets an error without `locations` for a fault at a known place")
+			}
+		}
+	}
+	if n == 0 {
+		r.OK("no call of gqlerror.Wrap / WrapPath in the module", "")
+	}
 }
